@@ -97,7 +97,8 @@ class FigureMarkdown(SphinxDirective):
             ]
 
         image_node, caption_para = children
-        if isinstance(image_node, nodes.paragraph):
+        # (a paragraph can be empty, e.g. of substitutions that expand to nothing)
+        if isinstance(image_node, nodes.paragraph) and image_node.children:
             image_node = image_node[0]
 
         if not isinstance(image_node, nodes.image):
